@@ -80,6 +80,8 @@ struct MqttSharedQueues {
     waiters: VecDeque<pool::Sender<()>>,
     /// QoS 2 publishes waiting for PUBCOMP, keyed by packet id
     released: HashMap<num::NonZeroU16, (pool::Sender<Ack>, Option<pool::Receiver<Ack>>)>,
+    /// QoS 2 publishes whose sender is gone before PUBREC is received
+    abandoned: HashSet<num::NonZeroU16>,
 }
 
 impl MqttSharedQueues {
@@ -107,6 +109,7 @@ impl MqttShared {
                 inflight_ids: HashSet::default(),
                 waiters: VecDeque::new(),
                 released: HashMap::default(),
+                abandoned: HashSet::default(),
             }),
             inflight_idx: Cell::new(0),
             encode_error: Cell::new(None),
@@ -261,6 +264,7 @@ impl MqttShared {
         let mut queues = self.queues.borrow_mut();
         queues.waiters.clear();
         queues.released.clear();
+        queues.abandoned.clear();
         // payload chunk waiting for write back-pressure to be lifted
         self.streaming_waiter.take();
 
@@ -401,6 +405,12 @@ impl MqttShared {
                 // acknowledgements of other packets is not defined
                 let (tx, rx) = self.pool.queue.channel();
                 queues.released.insert(idx, (tx, Some(rx)));
+
+                // sender is gone, nobody is going to release publish
+                if queues.abandoned.remove(&idx) {
+                    drop(queues);
+                    let _ = self.release_publish(idx);
+                }
                 Ok(())
             } else {
                 // get publish ack channel
@@ -599,6 +609,21 @@ impl MqttShared {
     }
 
     /// Register ack in response channel
+    /// Sender of QoS 2 publish is dropped before `PublishReceived` is created.
+    ///
+    /// Exchange is completed on its behalf, otherwise its slot is never freed
+    pub(super) fn abandon_publish(&self, id: num::NonZeroU16) {
+        if self.is_closed() {
+            return;
+        }
+        let received = self.queues.borrow().released.contains_key(&id);
+        if received {
+            let _ = self.release_publish(id);
+        } else {
+            self.queues.borrow_mut().abandoned.insert(id);
+        }
+    }
+
     pub(super) fn release_publish(
         &self,
         id: num::NonZeroU16,
